@@ -75,6 +75,13 @@ OnWrBegin(e) ==
   /\ m' = [m EXCEPT !.calls = IF e.kind = "call" /\ e.ref # "" THEN Put(m.calls, e.ref, [Call(e.ref) EXCEPT !.wire = e.id]) ELSE @,
                     !.notices = IF e.kind = "notif" /\ e.method = "notifications/cancelled" THEN @ \cup {e.cref} ELSE @]
   /\ Check(l, "C02.NoReplyToNotification", (e.kind = "resp" /\ m.ready) => Idn(e.id).deliv > 0)
+  \* on a healthy connection (no Close, no fault: nothing is refused by the connection layer itself) a response
+  \* means that the request went through the dispatcher and its handling has started, even if no user handler
+  \* was reached: no earlier notification / initialize handler may still be running
+  /\ Check(l, "C03.NotificationCompletesFirst",
+           (e.kind = "resp" /\ m.ready /\ Healthy /\ e.ref \in DOMAIN m.reqs /\ ~m.reqs[e.ref].dup) =>
+               \A r2 \in DOMAIN m.reqs : (m.reqs[r2].dseq < m.reqs[e.ref].dseq /\ m.reqs[r2].kind \in {"notif", "init"} /\ m.reqs[r2].started)
+                                             => m.reqs[r2].ended)
   \* a cancellation notice must name a call that the caller really abandoned
   /\ Check(l, "C04.OnlyMatchingSent",
            (e.kind = "notif" /\ e.method = "notifications/cancelled" /\ m.ready) =>
